@@ -72,7 +72,7 @@ func runC11Script(run int, sc map[string]any) ([]map[string]any, error) {
 	var evs []map[string]any
 	ev := map[string]any{"op": "world", "run": run, "mode": "c11", "occ": 0, "ignore": strOf(world["ignore"]),
 		"rootp": compsJSON(toB(rootPrefix)), "usersp": compsJSON(toB([]string{"config", "Users"}))}
-	if err := observe(sb, c, ev); err != nil {
+	if err := observe(sb, &c, ev); err != nil {
 		return nil, err
 	}
 	evs = append(evs, ev)
@@ -100,7 +100,7 @@ func runC11Script(run int, sc map[string]any) ([]map[string]any, error) {
 				return nil, err
 			}
 		}
-		if err := observe(sb, c, ev); err != nil {
+		if err := observe(sb, &c, ev); err != nil {
 			return nil, err
 		}
 		evs = append(evs, ev)
@@ -109,7 +109,20 @@ func runC11Script(run int, sc map[string]any) ([]map[string]any, error) {
 }
 
 // observe fills ev with snap, lists, infos, dls.
-func observe(sb *sandbox, c *sim.Client, ev map[string]any) error {
+func observe(sb *sandbox, cp **sim.Client, ev map[string]any) error {
+	// a request that makes the server drop the connection is an observation ("closed"), not a failure of the driver:
+	// the next request goes through a fresh connection
+	ask := func(typ int, fields ...sim.F) (reply, error) {
+		r, err := request(*cp, typ, fields...)
+		if err == nil && r.status == "closed" {
+			nc, lerr := login(sb.w)
+			if lerr != nil {
+				return r, lerr
+			}
+			*cp = nc
+		}
+		return r, err
+	}
 	nodes, err := sb.snapshotAt(sb.w.Root, rootPrefix)
 	if err != nil {
 		return err
@@ -147,12 +160,9 @@ func observe(sb *sandbox, c *sim.Client, ev map[string]any) error {
 		if len(wire) > 0 {
 			pf = append(pf, sim.Fld(sim.FFilePath, encPath(wire)))
 		}
-		r, err := request(c, sim.TGetFileNameList, pf...)
+		r, err := ask(sim.TGetFileNameList, pf...)
 		if err != nil {
 			return err
-		}
-		if r.status == "closed" {
-			return fmt.Errorf("connection closed by a file-list request")
 		}
 		le := map[string]any{"d": compsJSON(wire), "rep": r.status, "es": []map[string]any{}}
 		if r.status == "ok" {
@@ -165,12 +175,9 @@ func observe(sb *sandbox, c *sim.Client, ev map[string]any) error {
 					nb[i] = byte(x)
 				}
 				f := append([]sim.F{sim.Fld(sim.FFileName, nb)}, pf...)
-				ir, err := request(c, sim.TGetFileInfo, f...)
+				ir, err := ask(sim.TGetFileInfo, f...)
 				if err != nil {
 					return err
-				}
-				if ir.status == "closed" {
-					return fmt.Errorf("connection closed by a get-info request")
 				}
 				im := map[string]any{"d": compsJSON(wire), "n": nm, "rep": ir.status, "name": []int{}, "t": []int{}, "s": -1, "cl": 0}
 				if ir.status == "ok" {
@@ -189,12 +196,9 @@ func observe(sb *sandbox, c *sim.Client, ev map[string]any) error {
 				}
 				infos = append(infos, im)
 				if string(bytesFromInts(e["t"].([]int))) != "fldr" {
-					dr, err := request(c, sim.TDownloadFile, f...)
+					dr, err := ask(sim.TDownloadFile, f...)
 					if err != nil {
 						return err
-					}
-					if dr.status == "closed" {
-						return fmt.Errorf("connection closed by a download request")
 					}
 					dm := map[string]any{"d": compsJSON(wire), "n": nm, "rep": dr.status, "x": -1, "s": -1}
 					if dr.status == "ok" {
